@@ -50,6 +50,21 @@ Theorem C11_mark_survives : forall s s1 s2,
 Proof. exact mark_survives_history. Qed.
 Print Assumptions C11_mark_survives.
 
+(** crash points INSIDE operations: ANY subset of the device writes of ANY history, each whole or torn to a prefix, leaves the mark in
+    the boot sector — "a crash at any moment is detectable" for the whole time between mount and close *)
+From PyFatV Require Import Proofs.FileData Proofs.CrashOps.
+Theorem C11_mark_survives_any_crash : forall s s1 s2,
+  dev_ok (s_dev s) -> hdr_wf (s_h s) -> 0 <= BS_Reserved1 (s_h s) < 256 -> 512 <= s_dsize s ->
+  (ft s = Gen.FAT_TYPE_FAT32 -> 512 <= BPB_BkBootSec (s_h s) * bps s) ->
+  0 <= fat_start s -> 0 <= BPB_NumFATs (s_h s) -> fat_start s + BPB_NumFATs (s_h s) * fat_bytes s <= s_dsize s ->
+  (forall v, lenZ (pack_fat (ft s) (updZ (s_fat s) 1 v) (s_hi s)) <= fat_bytes s) ->
+  mark_dirty s = Ok s1 -> safe s1 -> clos_refl_trans st wstep s1 s2 ->
+  exists l, s_log s2 = l ++ s_log s1 /\
+    forall l' keep, Forall2 (fun (w' w:Z * list Z) => fst w' = fst w /\ lenZ (snd w') <= lenZ (snd w)) l' l ->
+      flag_set (parse_hdr (dread (apply_some (s_dev s1) l' keep) (s_dsize s1) 0 512)) = true.
+Proof. exact mark_survives_any_crash. Qed.
+Print Assumptions C11_mark_survives_any_crash.
+
 (** non-vacuity: the FAT16 volume of C16's example after its dirty marking is [safe]; a makedir and a file write are
     [wstep]s from it; the mark is on the device before and after *)
 From PyFatV Require Import Properties.C16.
